@@ -448,6 +448,7 @@ var Findings = []Finding{
 	{"labels-of-null-node", LabelsOfOptionalNode},
 	{"null-test-on-property-of-null-entity", NullTestOnOptionalEntityProperty},
 	{"continuation-step-drops-carried-constraints", EndpointPredicateOfExpansionBeforeContinuation},
+	{"unoptimised-step-rejoins-bound-node", FixedContinuationStepIntoBoundNode},
 }
 
 // AggConstantKeyOnly: an aggregating WITH/RETURN whose grouping items read no variable (literals, parameters,
@@ -1279,4 +1280,33 @@ func EndpointPredicateOfExpansionBeforeContinuation(q *Shape) bool {
 		}
 	}
 	return false
+}
+
+// FixedContinuationStepIntoBoundNode (C02): a fixed-length step that is not the first of its pattern part and whose
+// right node restates a bound variable. Same root cause as continuation-step-rejoins-bound-node: without an
+// expand-into decision buildTraversalPatternStep joins the node table unconstrained. The translation without an
+// optimisation plan has no expand-into decisions at all, so there EVERY such step multiplies the rows by the number
+// of nodes while the optimised SQL is right: optimised and unoptimised results differ.
+func FixedContinuationStepIntoBoundNode(q *Shape) bool {
+	found := false
+	q.walkParts(func(m *MatchShape, i int, ps *PatternShape, bound map[string]bool) {
+		for k, r := range ps.Rels {
+			if k == 0 || IsVarLength(r) || k+1 >= len(ps.Nodes) {
+				continue
+			}
+			right := varName(ps.Nodes[k+1].Variable)
+			if right == "" {
+				continue
+			}
+			if bound[right] {
+				found = true
+			}
+			for _, earlier := range ps.Nodes[:k+1] {
+				if varName(earlier.Variable) == right {
+					found = true
+				}
+			}
+		}
+	})
+	return found
 }
